@@ -7,6 +7,7 @@ import time
 _SETUP = False
 CRASHES = []
 TIMEOUT_S = 0.25
+HANG_S = 30.0
 
 
 def setup():
@@ -35,6 +36,7 @@ class Ctx(object):
     self.events = []
     self.body_calls = {}
     self.runif_calls = {}
+    self.inst = []
     self.lock = threading.Lock()
 
 
@@ -162,6 +164,55 @@ def build_phase(node, ctx, htf, diag_enum, diagnoses_lib, plugs=None):
   return phase
 
 
+class PlugsSupport(object):
+  """Instrumented plug classes: log constructor / tearDown / the instance each phase receives."""
+
+  def __init__(self, ctx, env, spec):
+    from openhtf.core import base_plugs
+    self.ctx = ctx
+    self.htf = env['htf']
+    self.classes = {}
+    serial = [0]
+    for key, beh in spec.items():
+      idx = int(key)
+
+      def init(self_, idx=idx, beh=beh):
+        with ctx.lock:
+          if beh.get('ctor') == 'raise':
+            ctx.events.append('eP!%d' % idx)
+          else:
+            serial[0] += 1
+            self_.serial = serial[0]
+            ctx.events.append('eP+%d' % idx)
+            ctx.inst.append('I+:%d:%d' % (idx, self_.serial))
+        if beh.get('ctor') == 'raise':
+          raise RuntimeError('plug %d constructor failure' % idx)
+
+      def tear_down(self_, idx=idx, beh=beh):
+        with ctx.lock:
+          ctx.events.append('eP-%d' % idx)
+          ctx.inst.append('I-:%d:%d' % (idx, self_.serial))
+        if beh.get('td') == 'raise':
+          raise RuntimeError('plug %d tearDown failure' % idx)
+        if beh.get('td') == 'hang':
+          while True:
+            time.sleep(0.002)
+      self.classes[idx] = type('Plug%d' % idx, (base_plugs.BasePlug,), {'__init__': init, 'tearDown': tear_down})
+
+  def attach(self, phase, node):
+    req = node.get('plugs') or []
+    if not req:
+      return phase
+    return self.htf.plug(**{arg: self.classes[cls] for arg, cls in req})(phase)
+
+  def seen(self, pid, kwargs):
+    with self.ctx.lock:
+      for arg in sorted(kwargs):
+        inst = kwargs[arg]
+        idx = int(type(inst).__name__[4:])
+        self.ctx.inst.append('I:%d:%s:%d:%d' % (pid, arg, idx, inst.serial))
+
+
 def build_node(node, ctx, env):
   htf, pb = env['htf'], env['phase_branches']
   t = node['t']
@@ -229,6 +280,7 @@ def canon_record(rec, ctx, start_name=None):
   for d in rec.diagnoses:
     toks.append('D%s:%d' % (d.result.name[1:], 1 if d.is_failure else 0))
   toks += list(ctx.events)
+  toks += list(ctx.inst)
   return toks
 
 
@@ -247,12 +299,21 @@ def run_test_case(case, plugs_factory=None, callbacks=None):
   htf, diagnoses_lib = env['htf'], env['diagnoses_lib']
   from openhtf.util import configuration
   ctx = Ctx()
-  if plugs_factory is not None:
-    env['plugs'] = plugs_factory(ctx, env)
+  if case.get('plugs') is not None:
+    env['plugs'] = PlugsSupport(ctx, env, case['plugs'])
   nodes = [build_node(n, ctx, env) for n in case['nodes']]
   test = htf.Test(*nodes)
   recs = []
+  cb_records = []
   test.add_output_callbacks(recs.append)
+  for j, raises in enumerate(case.get('callbacks') or []):
+    def cb(record, j=j, raises=raises):
+      with ctx.lock:
+        ctx.events.append('eCB%d' % j)
+      cb_records.append(record)
+      if raises:
+        raise RuntimeError('callback failure')
+    test.add_output_callbacks(cb)
   for cb in callbacks or []:
     test.add_output_callbacks(cb)
   test.configure(failure_exceptions=[Failure], stop_on_first_failure=bool(case.get('sof')),
@@ -260,6 +321,8 @@ def run_test_case(case, plugs_factory=None, callbacks=None):
   tdiags = []
   for j, d in enumerate(case.get('tdiags') or []):
     def run(test_record, store, d=d, j=j):
+      with ctx.lock:
+        ctx.events.append('eT%d' % j)
       if d == 'raise':
         raise RuntimeError('test diagnoser failure')
       return [diagnoses_lib.Diagnosis(env['diag_enum']['R%d' % rid], 'test diagnosis', is_failure=bool(f)) for rid, f in d]
@@ -269,20 +332,40 @@ def run_test_case(case, plugs_factory=None, callbacks=None):
     test.add_test_diagnosers(*tdiags)
   start = None
   if case.get('start') is not None:
-    start = build_phase(case['start'], ctx, htf, env['diag_enum'], diagnoses_lib, env.get('plugs_start'))
+    start = build_phase(case['start'], ctx, htf, env['diag_enum'], diagnoses_lib, env.get('plugs'))
   del CRASHES[:]
   conf = configuration.CONF
   saved = dict(conf._loaded_values)
   try:
     conf.load(allow_unset_measurements=bool(case.get('allow')), _override=True)
-    ret = test.execute(test_start=start) if start is not None else test.execute()
+    if case.get('plugs') is not None:
+      conf.load(plug_teardown_timeout_s=0.05, _override=True)
+    box = {}
+
+    def _go():
+      try:
+        box['ret'] = test.execute(test_start=start) if start is not None else test.execute()
+      except BaseException as e:  # pylint: disable=broad-except
+        box['exc'] = e
+    runner = threading.Thread(target=_go, name='verif-execute', daemon=True)
+    runner.start()
+    runner.join(HANG_S)
+    if runner.is_alive():
+      # execute() did not return: report it as an observation, the stuck threads are abandoned
+      return {'tokens': ['O:HANG'] + list(ctx.events), 'ret': False, 'crashes': [], 'record': None, 'ctx': ctx,
+              'test': test, 'cb_records': cb_records, 'recs': recs}
+    if 'exc' in box:
+      return {'tokens': ['O:RAISED:' + type(box['exc']).__name__] + list(ctx.events), 'ret': False, 'crashes': [],
+              'record': None, 'ctx': ctx, 'test': test, 'cb_records': cb_records, 'recs': recs}
+    ret = box['ret']
   finally:
     conf._loaded_values.clear()
     conf._loaded_values.update(saved)
   crashes = [c for c in CRASHES if c != 'ThreadTerminationError']
   rec = recs[0] if recs else None
   toks = canon_record(rec, ctx) if rec is not None else ['O:none']
-  return {'tokens': toks, 'ret': ret, 'crashes': crashes, 'record': rec, 'ctx': ctx, 'test': test}
+  return {'tokens': toks, 'ret': ret, 'crashes': crashes, 'record': rec, 'ctx': ctx, 'test': test,
+          'cb_records': cb_records, 'recs': recs}
 
 
 # ---------------------------------------------------------------------------
